@@ -184,6 +184,12 @@ def stage_model(refs, twin=False):
                     break
         else:
             r = dict(ref, abs=ref_abs(ref), base=ref["src"].rsplit("/", 1)[-1])
+            if r["base"] in ("..", "."):
+                # a reference whose file part ends in `..` / `.`: whether the staged entry is named after the
+                # normalised path (harmless) or after the last component (the parent of the working directory - it
+                # must then be refused) is not stated; either way nothing outside may be created, replaced or removed
+                v.odd.append("dotdot-reference")
+                break
             before = v.escape
             M.apply_staged_ref(fs, r, i, v)
             if v.escape and not before and ref["kind"] == "copy":
@@ -216,7 +222,7 @@ def write_ref_sources(refs, root, data_dir, producer_dir, twin=False):
         where = producer_dir if ref["src"].startswith("producer/") else data_dir
         if where is None:
             continue
-        path = os.path.join(where, ref["src"].split("/", 1)[1])
+        path = os.path.normpath(os.path.join(where, ref.get("tree_at", ref["src"]).split("/", 1)[1]))
         if ref["kind"] == "extract":
             members = [m for m in ref["members"] if not (twin and m.get("hostile"))]
             os.makedirs(os.path.dirname(path), exist_ok=True)
@@ -871,6 +877,17 @@ def catalogue():
                                      {"kind": "copy", "src": "producer/shared", "hostile": True,
                                       "tree": {"type": "dir", "entries": {
                                           "orig.txt": {"type": "file", "content": "FROM PRODUCER"}}}}]}))
+    for where in ("data", "producer"):
+        for tail in ("..", "sub/..", "sub/../..", "."):
+            for kind in ("copy", "link"):
+                # a reference whose file part ends in `..`: the source exists, the staged name would be `..`
+                cases.append(("stage", {"refs": [{"kind": kind, "src": "%s/dd/%s" % (where, tail),
+                                                  "tree_at": "%s/dd" % where, "hostile": True,
+                                                  "tree": {"type": "dir", "entries": {
+                                                      "sub": {"type": "dir", "entries": {
+                                                          "b.txt": {"type": "file", "content": "B"}}},
+                                                      "a.txt": {"type": "file", "content": "A"}}},
+                                                  "tags": ["dotdot-reference"]}]}))
     for k in (1, 3, 5):
         for variant in range(4):
             parts = hostile_bundles("symlink-then-below", k, 0, 10, variant)
